@@ -17,7 +17,7 @@ import (
 func chanMethods(c *chk.Ctx, name string) []*ssa.Function {
 	var out []*ssa.Function
 	for _, f := range pkgFuncs(c, c.M.ChanPkg) {
-		if f.Parent() == nil && f.Name() == name && f.Signature.Recv() != nil && f.Synthetic == "" {
+		if f.Parent() == nil && ir.BaseName(f) == name && f.Signature.Recv() != nil && f.Synthetic == "" {
 			out = append(out, f)
 		}
 	}
@@ -235,9 +235,9 @@ func ruleHeaderAgreement(c *chk.Ctx) {
 							continue
 						}
 						// only in functions that write to the channel's output
-						if f.Name() == "Send" || strings.Contains(strings.ToLower(name), "content-") {
+						if ir.BaseName(f) == "Send" || strings.Contains(strings.ToLower(name), "content-") {
 							written[strings.ToLower(name)] = ins.Pos()
-							if f.Name() == "Send" {
+							if ir.BaseName(f) == "Send" {
 								sendFn = f
 							}
 						}
@@ -974,6 +974,17 @@ func ruleDelimiterRecv(c *chk.Ctx) {
 			c.Fail("PAIR.accumulate", f, "returned data", r.Pos(), "the data returned is neither the accumulated line nor nil")
 		}
 	}
+	// no more than the delimiter is removed: the record returned is the accumulated line cut at most once
+	for _, w := range dways {
+		if ir.IsNilConst(w.d) {
+			continue
+		}
+		if n := cutDepth(c, w.d, nil, 0, map[ssa.Value]bool{}); n > 1 {
+			c.Fail("PAIR.strip", f, "only the delimiter is removed", w.r.Pos(), "the record returned is cut %d times out of the accumulated line: bytes other than the delimiter (a trailing CR, padding) would be removed from the record, which may contain any byte but the delimiter", n)
+		} else {
+			c.Pass("PAIR.strip", f, "only the delimiter is removed", w.r.Pos(), "the record returned is the accumulated line, cut at most once")
+		}
+	}
 	// stripping the last byte only when it is the delimiter
 	c.P.ExtInstrs(f, func(ins ssa.Instruction) {
 		sl, ok := ins.(*ssa.Slice)
@@ -990,6 +1001,75 @@ func ruleDelimiterRecv(c *chk.Ctx) {
 		okStrip := ir.ProvesNil(ir.CondsAt(sl.Block()), m.isErr)
 		c.Check(okStrip, "PAIR.strip", sl.Parent(), "last byte stripped only when it is the delimiter", sl.Pos(), "the final byte is dropped only on the err == nil edge of ReadSlice (the only case in which it is the delimiter)", "the final byte is dropped although ReadSlice may have failed: an unterminated last record loses its last byte")
 	})
+}
+
+// cutDepth counts how many times v was cut (resliced with a bound, or trimmed)
+// on its longest chain back to an uncut value. args maps the parameters of a
+// helper being looked through to the caller's arguments.
+func cutDepth(c *chk.Ctx, v ssa.Value, args map[*ssa.Parameter]ssa.Value, depth int, seen map[ssa.Value]bool) int {
+	if depth > 12 || seen[v] {
+		return 0
+	}
+	seen[v] = true
+	defer delete(seen, v)
+	switch x := v.(type) {
+	case *ssa.Slice:
+		n := cutDepth(c, x.X, args, depth+1, seen)
+		if x.High != nil || x.Low != nil {
+			if k, isC := ir.ConstInt(x.Low); x.High != nil || !isC || k != 0 {
+				n++
+			}
+		}
+		return n
+	case *ssa.Phi:
+		best := 0
+		for _, e := range x.Edges {
+			if n := cutDepth(c, e, args, depth+1, seen); n > best {
+				best = n
+			}
+		}
+		return best
+	case *ssa.Parameter:
+		if a, ok := args[x]; ok {
+			return cutDepth(c, a, nil, depth+1, seen)
+		}
+	case *ssa.ChangeType:
+		return cutDepth(c, x.X, args, depth+1, seen)
+	case *ssa.Extract:
+		if call, ok := x.Tuple.(*ssa.Call); ok {
+			return cutDepthCall(c, call, x.Index, depth, seen)
+		}
+	case *ssa.Call:
+		return cutDepthCall(c, x, 0, depth, seen)
+	}
+	return 0
+}
+
+func cutDepthCall(c *chk.Ctx, call *ssa.Call, res, depth int, seen map[ssa.Value]bool) int {
+	cc := &call.Call
+	if ir.IsCallTo(cc, "bytes.TrimSuffix", "bytes.TrimRight", "bytes.TrimSpace", "bytes.TrimPrefix", "bytes.TrimLeft", "bytes.Trim", "bytes.TrimFunc", "bytes.TrimRightFunc", "bytes.TrimLeftFunc") {
+		return 1 + cutDepth(c, cc.Args[0], nil, depth+1, seen)
+	}
+	g := cc.StaticCallee()
+	if g == nil || !c.P.InRepo[g] || g.Blocks == nil {
+		return 0
+	}
+	m := map[*ssa.Parameter]ssa.Value{}
+	for i, p := range g.Params {
+		if i < len(cc.Args) {
+			m[p] = cc.Args[i]
+		}
+	}
+	best := 0
+	for _, r := range ir.Returns(g) {
+		if res >= len(r.Results) {
+			continue
+		}
+		if n := cutDepth(c, ir.ReturnResult(r, res), m, depth+1, seen); n > best {
+			best = n
+		}
+	}
+	return best
 }
 
 // ruleFullReads: a Read whose byte count is ignored cannot fill a record.
